@@ -42,6 +42,22 @@ INFO = {
  'C17b': ('C17', "update_step_size gains an `order` argument fed with solver.strong_order, which depends on the declared noise type", "adaptive=True; solvers whose strong_order differs between the special and the general declaration: meshes differ"),
  'C18b': ('C18', "parse_return: `log_ratio[1:] - log_ratio[:1]` instead of `[:-1]`: cumulative values instead of per-interval increments", "logqp=True with >= 3 output times (rows after the first are cumulative)"),
  'C20b': ('C20', "dg_ga_jvp_column_sum_v2 made the default and `repeat_interleave` replaced by `repeat`: Jacobian rows evaluated at another batch row's state", "method='log_ode', general noise, davie/foster Levy area, batch >= 2, m >= 2, rows with different states"),
+ 'C02c': ('C02', "SRK.additive_step caches 1/dt on the solver object at the first step and reuses it", "method='srk', additive noise, the same solver instance taking steps of two different sizes (clipped last step, adaptive half steps), state-dependent drift"),
+ 'C03c': ('C03', "Foster branch of _davie_foster_approximation: hoisted unsqueeze, std depends on H_i only, so the area is no longer antisymmetric", "levy_area_approximation='foster', shape (B, m) with m >= 2, return_A=True"),
+ 'C04c': ('C04', "precedence slip in the multi-piece Levy-area merge: 0.5*W(x)Wi - Wi(x)W", "davie/foster, return_A=True, >= 2-D size, a query assembled from >= 2 stored tree nodes (history or dt hint)"),
+ 'C05c': ('C05', "_create_dependency_tree fast path tests `not interval._midway`: an internal node split at exactly 0.0 is treated as a leaf and re-split", "t0 < 0 < t1, a query boundary at exactly 0.0, no dt hint, halfway_tree=False, > 100 queries so that the tree refinement fires"),
+ 'C06c': ('C06', "`entropy = entropy or np.random.randint(...)`: the explicit seed 0 is replaced by a random one", "entropy=0 passed to BrownianInterval / BrownianTree"),
+ 'C07c': ('C07', "`if not cache_size:` gives cache_size=0 the unbounded dict instead of _EmptyDict", "cache_size=0 and at least one non-trivial query: cache grows with the history"),
+ 'C08c': ('C08', "ReversibleHeun.init_extra_solver_state: z0 = y0.detach().clone() cuts the autograd edge from z0 to y0", "method='reversible_heun', gradient with respect to y0 (forward values unchanged)"),
+ 'C09c': ('C09', "AdjointSDE.g_prod evaluates the forward diffusion at t instead of -t", "adjoint_method='euler_heun' (the only adjoint solver calling g_prod on its own), Stratonovich, diffusion with explicit time dependence"),
+ 'C10c': ('C10', "AdjointReversibleHeun.step differentiates w.r.t. all parameters of the forward SDE and zips against adjoint_params", "adjoint_params a proper subset / reordering of sde.parameters() (or frozen parameters)"),
+ 'C12c': ('C12', "check_contract builds the ts tensor from a list without dtype=y0.dtype (default dtype float32)", "ts passed as list/tuple, y0 float64 under the stock float32 default dtype, times not exactly representable in float32"),
+ 'C13c': ('C13', "fixed step size refined by an integer factor derived from the smallest output spacing of the call's ts", "fixed steps, an output spacing finer than dt/1.5 in one chunk only"),
+ 'C14c': ('C14', "compute_error: per-element tolerance no longer clamped at eps", "adaptive=True, atol=0, a state entry exactly zero across a trial step: NaN error estimate, AssertionError"),
+ 'C16c': ('C16', "ForwardSDE.f_default returns zeros instead of raising", "SDE without a standalone f (drift only through f_and_g / f_and_g_prod) and a solver asking for f (srk, derivative Milstein)"),
+ 'C18c': ('C18', "misc.stable_division guard `b.detach() > epsilon` without abs: negative denominators replaced by -epsilon", "logqp=True, diagonal noise, a negative diffusion entry"),
+ 'C19c': ('C19', "is_strictly_increasing vectorised as `(ts[1:] >= ts[:-1]).all()`", "ts with two equal consecutive times: accepted instead of ValueError"),
+ 'C20c': ('C20', "SDELogqp pseudo-inverse shortcut for a single noise channel normalised by (g**2).sum() over the whole batch", "logqp=True, scalar noise or general/additive with m == 1, batch >= 2"),
  'C20': ('C20', "Levy-area noise drawn at size[1:-1] + (m, m) and broadcast over the batch", "davie/foster, batch >= 2, m >= 2: all batch rows share the Levy-area noise (marginals unchanged)"),
 }
 for sid, (prop, what, needs) in INFO.items():
